@@ -1253,6 +1253,19 @@ def plan_C14(tier, rng):
                                 cs.write(ep, F["name"], 0, bits, c, wo=True, opts=o)
                                 if trim:
                                     cs.write(ep, F["name"], 0, bits, c, wo=True, opts=dict(o, trim=False))
+    # the notation flags of the format interact with the options: trim under no_exponent_without_fraction, forbidden / required
+    # exponent notation against the breaks, required exponent sign
+    for fname in ("syn_no_exponent_without_fraction", "syn_no_exponent_notation", "syn_required_exponent_notation",
+                  "syn_required_exponent_sign", "syn_required_mantissa_sign"):
+        fid_ = fmt_id(fname)
+        for x in (1.0, 1e-7, 1e10, 1.5e-7, 2.5e10, 123.0, 0.5, 1e21, 9.96e-7, 7.04e12):
+            for F in (F64, F32):
+                i += 1
+                ep = cs.new_ep()
+                bits = gens.pyfloat_bits(F, x)
+                cs.write(ep, F["name"], fid_, bits, ["rf"], wo=True, opts=wf(), tag="notation-flag-format")
+                for g in (dict(trim=True), dict(max=2), dict(max=2, trim=True), dict(min=4), dict(min=4, trim=True), dict(pos=2, neg=-2, trim=True)):
+                    cs.write(ep, F["name"], fid_, bits, ["rf"], wo=True, opts=wf(**g))
     # other radices: counts, padding, notation flags, trim, punctuation
     for r in ([2, 16, 3, 36, 28, 7] if quick else [2, 4, 8, 16, 32, 3, 7, 12, 21, 28, 36]):
         rc = radix_cfgs(r, cfgs)
@@ -1510,7 +1523,8 @@ def plan_C15(tier, rng):
                ("NaN", "in", "inf"), ("nan", "Inf", "Inft")]
     fmts = [(0, cfgs_std), (fmt_id("syn_no_special"), ["rf"]), (fmt_id("syn_case_sensitive_special"), ["rf"]),
             (fmt_id("sep_special"), ["rf"]), (fmt_id("sep_all_flags"), ["rf"]), (radix_fmt(19), ["rf"]), (radix_fmt(24), ["rf"]),
-            (radix_fmt(36), ["rf"]), (radix_fmt(16), ["rf"])]
+            (radix_fmt(36), ["rf"]), (radix_fmt(16), ["rf"]),
+            (fmt_id("syn_required_mantissa_sign"), ["rf"]), (fmt_id("syn_no_positive_mantissa_sign"), ["rf"])]
     i = 0
 
     def variants(sp):
